@@ -179,14 +179,33 @@ theorem invert_negates_tax_summary (r : Rule) (c : ℕ) (includes : Option Strin
     taxTotal exactOps r c includes (rows.map negRow) = (taxTotal exactOps r c includes rows).map negTax :=
   taxTotal_neg r c includes rows
 
+/-- a small document used to show the statement below is not vacuous for a supplied rounding -/
+def sampleDocR : Doc :=
+  { cur := "EUR", c := 2, rule := .precise, includes := none,
+    lines := [{ qty := ⟨3, 0⟩, item := some { price := some ⟨10005, 3⟩, cur := "", sub := 2, alts := [] },
+                discounts := [], charges := [], breakdown := [],
+                taxes := [{ cat := "VAT", country := "", key := "standard", percent := some ⟨⟨21, 2⟩⟩,
+                            surcharge := none, ext := "", retained := false }] }],
+    discounts := [], charges := [], rates := [], rounding := none, hasPayment := false, advances := [], dues := [] }
+
 /-- **`Invert` negates the whole calculation.**  `invertDoc` is the sign change `Invoice.Invert`
 applies to the inputs; `negOut` negates every computed figure (line sums and totals, line and document
 discount/charge amounts and bases, advances, every tax-summary figure, every total).  Payment due
-dates are compared separately because a fixed due amount keeps its sign in the code too. -/
-theorem invert_negates_document (d : Doc) (h : ∀ l ∈ d.lines, PlainLine l) (hr : d.rounding = none) :
+dates are compared separately because a fixed due amount keeps its sign in the code too.  An
+externally supplied rounding amount is inverted with the rest (no hypothesis on `d.rounding` since
+/repo d6d7c00: until then `Invert` dropped it with the totals and then failed its own payable check —
+the hypothesis `d.rounding = none` this theorem used to carry was the sign of that defect). -/
+theorem invert_negates_document (d : Doc) (h : ∀ l ∈ d.lines, PlainLine l) :
     (calculate exactOps (invertDoc d)).map Out.dropDues =
       ((calculate exactOps d).map negOut).map Out.dropDues :=
-  calculate_invert d h hr
+  calculate_invert d h
+
+/-- with a supplied rounding: the inverted document carries the negated rounding and pays the negated amount -/
+example :
+    ((calculate exactOps (invertDoc { sampleDocR with rounding := some ⟨-2, 2⟩ })).toOption.bind (·.totals)).map
+        (fun t => (t.rounding, t.payable)) =
+      (((calculate exactOps { sampleDocR with rounding := some ⟨-2, 2⟩ }).toOption.bind (·.totals)).map
+        (fun t => (t.rounding.map neg, neg t.payable))) := by decide
 
 /-- `negOut` really is a sign change: applying it twice gives the result back. -/
 theorem negate_totals_involutive (t : Totals) (h : t.taxes = none) : negTotals (negTotals t) = t := by
@@ -568,11 +587,11 @@ namespace ExpectCalc
 open GoblVerif.Generated.Calc
 
 theorem calls_Invoice_Invert_as_modelled : calls_Invoice_Invert =
-    ["New", "Invert", "Invert", "Invert", "invertAmountPtr", "Invert", "invertAmountPtr", "invertAmountPtr", "Invert", "invertAmountPtr", "Invert", "invertAmountPtr", "Invert", "Calculate", "Equals", "Errorf", "String", "String"] := rfl
+    ["New", "Invert", "Invert", "Invert", "invertAmountPtr", "Invert", "invertAmountPtr", "invertAmountPtr", "Invert", "invertAmountPtr", "Invert", "invertAmountPtr", "Invert", "invertAmountPtr", "Calculate", "Equals", "Errorf", "String", "String"] := rfl
 theorem conds_Invoice_Invert_as_modelled : conds_Invoice_Invert =
-    ["inv.Totals == nil", "inv.Payment != nil", "err := inv.Calculate(); err != nil", "!payable.Equals(inv.Totals.Payable)"] := rfl
+    ["inv.Totals == nil", "inv.Payment != nil", "rnd := invertAmountPtr(inv.Totals.Rounding); rnd != nil", "err := inv.Calculate(); err != nil", "!payable.Equals(inv.Totals.Payable)"] := rfl
 theorem stmts_Invoice_Invert_as_modelled : stmts_Invoice_Invert =
-    ["return errors.New(\"cannot invert an invoice without totals\")", "payable := inv.Totals.Payable.Invert()", "row.Quantity = row.Quantity.Invert()", "d.Amount = d.Amount.Invert()", "d.Base = invertAmountPtr(d.Base)", "c.Amount = c.Amount.Invert()", "c.Base = invertAmountPtr(c.Base)", "c.Quantity = invertAmountPtr(c.Quantity)", "row.Amount = row.Amount.Invert()", "row.Base = invertAmountPtr(row.Base)", "row.Amount = row.Amount.Invert()", "row.Base = invertAmountPtr(row.Base)", "row.Amount = row.Amount.Invert()", "inv.Totals = nil", "err := inv.Calculate()", "return err", "return fmt.Errorf(\"inverted invoice totals do not match %s != %s\", payable.String(), inv.Totals.Payable.String())", "return nil"] := rfl
+    ["return errors.New(\"cannot invert an invoice without totals\")", "payable := inv.Totals.Payable.Invert()", "row.Quantity = row.Quantity.Invert()", "d.Amount = d.Amount.Invert()", "d.Base = invertAmountPtr(d.Base)", "c.Amount = c.Amount.Invert()", "c.Base = invertAmountPtr(c.Base)", "c.Quantity = invertAmountPtr(c.Quantity)", "row.Amount = row.Amount.Invert()", "row.Base = invertAmountPtr(row.Base)", "row.Amount = row.Amount.Invert()", "row.Base = invertAmountPtr(row.Base)", "row.Amount = row.Amount.Invert()", "rnd := invertAmountPtr(inv.Totals.Rounding)", "inv.Totals = &Totals{Rounding: rnd}", "inv.Totals = nil", "err := inv.Calculate()", "return err", "return fmt.Errorf(\"inverted invoice totals do not match %s != %s\", payable.String(), inv.Totals.Payable.String())", "return nil"] := rfl
 theorem calls_removeIncludedTaxes_as_modelled : calls_removeIncludedTaxes =
     ["canRemoveIncludedTaxes", "getTax", "getTotals", "calculate", "getTotals", "getTotals", "setTotals", "new", "getLines", "getLines", "removeLineIncludedTaxes", "getDiscounts", "len", "removeIncludedTaxes", "getCharges", "len", "removeIncludedTaxes", "getTax", "calculate", "getTotals", "Equals", "Subtract", "calculate"] := rfl
 theorem conds_removeIncludedTaxes_as_modelled : conds_removeIncludedTaxes =
